@@ -108,7 +108,7 @@ class EXTDPMT(Aggregate):
     def validate_args(cls, *args, **kwargs):
         # "At least one of the following: <EXTDPMTDSC>, or <EXTDPMTINV>"
         listitems = [arg.__class__.__name__ for arg in args]
-        if "EXTDPMTINV" not in listitems and "extdpmtdsc" not in kwargs:
+        if "EXTDPMTINV" not in listitems and kwargs.get("extdpmtdsc") in (None, ""):
             msg = "{} must contain at least one of [EXTDPMTDSC, EXTPMTINV]"
             raise ValueError(msg.format(cls.__name__))
 
